@@ -8,7 +8,9 @@ Local Open Scope string_scope.
 Definition d_bitchunks (a : args) : list (list Z) :=
   let c := bitchunks_new (bytes_of (arg 0 a)) (argn 1 a) (argn 2 a) in
   [ zs_of_bytes (bitchunks_iter c); [Z.of_N (remainder_bits c)];
-    [Z.of_nat (bc_chunk_len c); Z.of_nat (bc_rem_len c)] ].
+    [Z.of_nat (bc_chunk_len c); Z.of_nat (bc_rem_len c);
+     Z.of_nat (bc_chunk_len c + (if Nat.eqb (bc_rem_len c) 0 then 0 else 1));
+     Z.of_nat ((bc_chunk_len c * 64 + bc_rem_len c + 7) / 8)] ].
 
 (* spec form of the same observables, computed from the list-of-bool denotation *)
 Fixpoint word_of_bits (l : list bool) : N :=
@@ -20,7 +22,7 @@ Definition s_bitchunks (a : args) : list (list Z) :=
   let bits := bits_range bs off len in
   [ zs_of_bytes (words_of_bits (len / 64) bits);
     [Z.of_N (word_of_bits (skipn (64 * (len / 64)) bits))];
-    [Z.of_nat (len / 64); Z.of_nat (len mod 64)] ].
+    [Z.of_nat (len / 64); Z.of_nat (len mod 64); Z.of_nat ((len + 63) / 64); Z.of_nat ((len + 7) / 8)] ].
 
 (* unaligned: [bytes] [align] [off] [len] -> [lead;trail] [prefix?] [chunks] [suffix?] [count_ones] *)
 Definition d_unaligned (a : args) : list (list Z) :=
